@@ -72,6 +72,25 @@ Definition py_update (x y : val) : val :=
   match x, y with VD a, VD b => VD (dict_update a b) | _, _ => x end.
 (* utils.merge([a, b]) on flat dicts of atoms is dict.update on a copy (see design/C17.md) *)
 Definition py_merge2 (x y : val) : val := py_update x y.
+(* d.get(k, default), d[k] = v, for k, v in d.items() — dict keys and values travel as atoms *)
+Definition py_dict_get (d k default : val) : val :=
+  match d, k with
+  | VD l, VA (AInt z) => match dict_get z l with Some a => VA a | None => default end
+  | _, _ => default
+  end.
+Definition py_setitem (d k v : val) : val :=
+  match d, k, v with
+  | VD l, VA (AInt z), VA a => VD (dict_set z a l)
+  | _, _, _ => d
+  end.
+Definition py_for_items (d acc : val) (f : val -> val -> val -> val) : val :=
+  match d with
+  | VD l => fold_left (fun a kv => f a (VA (AInt (fst kv))) (VA (snd kv))) l acc
+  | _ => acc
+  end.
+(* ContextualOverride.cascade *)
+Definition py_attr_cascade (v : val) : val :=
+  match v with VA (AOv _ c _) => VA (ABool c) | _ => VA (ABool false) end.
 (* stack[-1] *)
 Definition py_last (v : val) : val :=
   match v with VS (d :: _) => VD d | _ => v_none end.
